@@ -132,3 +132,10 @@ Proof. vm_compute. reflexivity. Qed.
 Example show_ex :
   show_sxs [SL [SY "add"; SZ (-120); SS (stext "AB"); SL []; SZ 0]]%string = stext "(add -120 #4142 () 0)".
 Proof. vm_compute. reflexivity. Qed.
+
+(* one line in, one line out: `(<entry> <payload>)` is handed to f as the payload *)
+Definition run_with (f : sx -> sx) (line : text) : text :=
+  match parse_sx line with
+  | [SL [SY _; y]] => show_sx (f y)
+  | _ => stext "parse-error"
+  end.
